@@ -84,6 +84,21 @@ def run_corpus(tag="memo"):
         except (TypeError, ValueError):
             mism.append("nested-%d: parser driver died (rc=%s)" % (d, rc))
     detail["reads_by_depth"] = reads
+    # ... and the memo table keeps working however much was parsed before: the marginal cost of a nested
+    # declaration at the end of a long file is its stand-alone cost
+    nest = "let z = " + "(" * 7 + "num" + ")" * 7 + ";\n"
+    prefix = "".join("let v%d = { 'a num, 'b [str] };\n" % i for i in range(700))
+    rr = {}
+    for nm, text in (("nest", nest), ("prefix", prefix), ("prefix+nest", prefix + nest)):
+        rc, out, t = run([drv], stdin=text, timeout=180, mem_gb=6, extra_env={"PARSEDRV_MEMO_ONLY": "1"})
+        r = parse_out(out)
+        try:
+            rr[nm] = int(r.get("memo", {}).get("reads"))
+        except (TypeError, ValueError):
+            mism.append("long file (%s): parser driver died or timed out (rc=%s)" % (nm, rc))
+    detail["reads_long_file"] = rr
+    if len(rr) == 3 and rr["prefix+nest"] - rr["prefix"] > 3 * rr["nest"] + 50:
+        mism.append("token reads for a nested declaration explode after a long prefix (the memo table stops working): %s" % rr)
     # ... also when the innermost level is malformed, so that every enclosing level fails too: a failed production
     # must be remembered just like a successful one (unclosed / empty nests of depth 3, 5, 7)
     for shape, mk in (("unclosed-parens", lambda d: "let a = " + "(" * d + "num;\n"), ("empty-parens", lambda d: "let a = " + "(" * d + ")" * d + ";\n"),
